@@ -106,6 +106,16 @@ impl DateTime<FixedOffset> {
 impl NaiveDate {
     #[verifier::external_body]
     pub fn format(&self, fmt: &str) -> (r: DelayedFormat) ensures r.out == strftime_date(*self, fmt@) { unimplemented!() }
+    /// chrono::Datelike accessors (values uninterpreted: nothing in the crate under contract depends on them)
+    pub uninterp spec fn spec_year(&self) -> int;
+    pub uninterp spec fn spec_month(&self) -> int;
+    pub uninterp spec fn spec_day(&self) -> int;
+    #[verifier::external_body]
+    pub fn year(&self) -> (r: i32) ensures r as int == self.spec_year() { unimplemented!() }
+    #[verifier::external_body]
+    pub fn month(&self) -> (r: u32) ensures r as int == self.spec_month(), 1 <= r <= 12 { unimplemented!() }
+    #[verifier::external_body]
+    pub fn day(&self) -> (r: u32) ensures r as int == self.spec_day(), 1 <= r <= 31 { unimplemented!() }
 }
 impl DelayedFormat {
     #[verifier::external_body]
